@@ -1,7 +1,10 @@
 import EzdxfVerif.Model.Schema
+import EzdxfVerif.Model.Payload
 import EzdxfVerif.Gen.Schemas
+import EzdxfVerif.Gen.PayloadTables
 import Drivers.Proto
 open EzdxfVerif EzdxfVerif.Schema Proto
+open EzdxfVerif.Payload (P2 P3)
 
 /-! Line protocol of C01 (see harness/props/c01.py).
   values    N | i<int> | d<bits> | s<cp.cp.…> | p<x.y.z> | q<x.y> | b<byte.byte.…>
@@ -118,7 +121,150 @@ def findPlan (c : ClassSchema) (ver : Nat) : Option Plan := c.plans.find? (fun p
 def parseSubs (s : String) : Option (List (List LTag)) :=
   if s.isEmpty then some [] else (s.splitOn "/").mapM (parseList parseLTag)
 
+/-! payload codecs (Model/Payload.lean): requests carry tag lists, responses the loaded structure, the remaining tags
+    and the tags the model writes for the loaded structure -/
+
+/-- the double `360.0 - x` on bit patterns (driver only: the theorems hold for every function) -/
+def compF (b : Nat) : Nat := ((360.0 : Float) - Float.ofBits b.toUInt64).toBits.toNat
+def fsubBits (a b : Nat) : Nat := (Float.ofBits a.toUInt64 - Float.ofBits b.toUInt64).toBits.toNat
+def subF (a b : P2) : P2 := (fsubBits a.1 b.1, fsubBits a.2 b.2)
+/-- `math.degrees` / `math.radians` of CPython: multiplication by the constants 180/pi and pi/180 -/
+def degF (b : Nat) : Nat := (Float.ofBits b.toUInt64 * ((180.0 : Float) / 3.141592653589793)).toBits.toNat
+def radF (b : Nat) : Nat := (Float.ofBits b.toUInt64 * ((3.141592653589793 : Float) / 180.0)).toBits.toNat
+
+def showTags (ts : List Tag) : String := ";".intercalate (ts.map showTag)
+def showP2 (p : P2) : String := s!"{p.1}.{p.2}"
+def showP3 (p : P3) : String := s!"{p.1}.{p.2.1}.{p.2.2}"
+def showNatsC (l : List Nat) : String := ",".intercalate (l.map toString)
+def showIntsC (l : List Int) : String := ",".intercalate (l.map toString)
+def showOP2 : Option P2 → String
+  | some p => showP2 p
+  | none => "N"
+def showHandles (hs : List (List Nat)) : String := ",".intercalate (hs.map showDots)
+
+def showEdge : Payload.Edge → String
+  | .line s e => s!"L({showP2 s},{showP2 e})"
+  | .arc c r sa ea ccw => s!"A({showP2 c},{r},{sa},{ea},{ccw})"
+  | .ellipse c m r sa ea ccw => s!"E({showP2 c},{showP2 m},{r},{sa},{ea},{ccw})"
+  | .spline d r p k c w f st et =>
+    s!"S({d},{r},{p},[{showNatsC k}],[{",".intercalate (c.map showP2)}],[{showNatsC w}],[{",".intercalate (f.map showP2)}],{showOP2 st},{showOP2 et})"
+
+def showPath : Payload.BPath → String
+  | .poly fl cl vs src =>
+    s!"P({fl},{cl},[{",".intercalate (vs.map (fun v => s!"{v.1}.{v.2.1}.{v.2.2}"))}],[{showHandles src}])"
+  | .edges fl es src => s!"G({fl},[{",".intercalate (es.map showEdge)}],[{showHandles src}])"
+
+def showPaths (ps : List Payload.BPath) : String := " ".intercalate (ps.map showPath)
+
+def payloadStep (op : String) (args : List String) : Option String :=
+  match op, args with
+  | "pspl", [tags] => do
+    let ts ← parseList parseTag tags
+    let r := Payload.loadSpline ts
+    let d := r.1
+    pure (s!"k[{showNatsC d.knots}] w[{showNatsC d.weights}] c[{",".intercalate (d.ctrl.map showP3)}] " ++
+      s!"f[{",".intercalate (d.fit.map showP3)}]|{showTags r.2}|{showTags (Payload.splineCounts d ++ Payload.exportSplineData d)}")
+  | "pmesh", [tags] => do
+    let ts ← parseList parseTag tags
+    match Payload.loadMesh id ts with
+    | none => pure "err"
+    | some (m, rest) =>
+      pure (s!"v[{",".intercalate (m.verts.map showP3)}] f[{";".intercalate (m.faces.map showIntsC)}] e[{showIntsC m.edges}] " ++
+        s!"c[{showNatsC m.creases}]|{showTags rest}|{showTags (Payload.exportMesh m)}")
+  | "pmtext", [tags] => do
+    let ts ← parseList parseTag tags
+    let r := Payload.loadMText ts
+    pure (s!"{showDots (r.1.map Char.toNat)}|{showTags r.2}|{showTags (Payload.exportMText r.1)}")
+  | "pmtextexp", [text] => do
+    let t ← parseDots text
+    pure (showTags (Payload.exportMText (t.map Char.ofNat)))
+  | "pdict", [tags] => do
+    let ts ← parseList parseTag tags
+    let d := Payload.loadDict ts
+    pure (s!"{d.valueCode} " ++ ",".intercalate (d.items.map (fun kv => s!"{showDots kv.1}={showDots kv.2}")) ++
+      "|" ++ showTags (Payload.exportDict d))
+  | "ppaths", [r2010, hatch, tags] => do
+    let r ← parseBool r2010
+    let h ← parseBool hatch
+    let ts ← parseList parseTag tags
+    match Payload.loadPaths compF ts with
+    | none => pure "err"
+    | some ps =>
+      let ok := ps.all (fun p => match p with
+        | .edges _ es _ => es.all Payload.edgeExportOK
+        | _ => true)
+      pure (showPaths ps ++ "|" ++ (if ok then showTags (Payload.exportPaths compF subF r h ps) else "raises"))
+  | "phatch", [tags] => do
+    let ts ← parseList parseTag tags
+    match Payload.loadHatchPaths Gen.PayloadTables.pathCodes compF [] ts with
+    | none => pure "err"
+    | some (ps, rest) => pure (showPaths ps ++ "|" ++ showTags rest)
+  | "phatchall", [tags] => do
+    let ts ← parseList parseTag tags
+    match Payload.loadHatchAll Gen.PayloadTables.pathCodes Gen.PayloadTables.patternCodes compF ts with
+    | none => pure "err"
+    | some (d, rest) =>
+      let pat := match d.pattern with
+        | none => "N"
+        | some ls => " ".intercalate (ls.map (fun l => s!"{l.angle},{showP2 l.base},{showP2 l.offset},[{showNatsC l.dashes}]"))
+      pure (showPaths d.paths ++ "|" ++ showTags d.gradient ++ "|" ++ pat ++ "|" ++ ",".intercalate (d.seeds.map showP2) ++ "|" ++ showTags rest)
+  | "pgrad", [tags] => do
+    let ts ← parseList parseTag tags
+    match Payload.loadGrad degF ts with
+    | none => pure "err"
+    | some g =>
+      let so := fun (o : Option Int) => match o with | some v => toString v | none => "N"
+      pure (s!"{g.kind},{g.rot},{g.centered},{g.oneColor},{g.tint},{showDots g.name},{g.ncolors},{so g.aci1},{g.c1},{so g.aci2},{g.c2}|" ++
+        showTags (Payload.exportGrad radF g))
+  | "pfrozen", [tbl, names, tags] => do
+    let es ← parseList (fun e => match e.splitOn "," with
+      | [k, n, h] => do
+        let k' ← parseDots k
+        let n' ← parseDots n
+        let h' ← parseDots h
+        pure (⟨k', n', h'⟩ : Payload.ResEntry)
+      | _ => none) tbl
+    let ns ← parseList parseDots names
+    let ts ← parseList parseTag tags
+    let lower := fun (n : List Nat) => n.map (fun c => if 65 ≤ c ∧ c ≤ 90 then c + 32 else c)
+    let r := Payload.loadFrozen ts
+    pure (showTags (Payload.exportFrozen lower es ns) ++ "|" ++ showHandles (Payload.handlesToNames es r.1) ++ "|" ++ showTags r.2)
+  | "pseeds", [tags] => do
+    let ts ← parseList parseTag tags
+    let r := Payload.loadSeeds [] ts
+    pure (",".intercalate (r.1.map showP2) ++ "|" ++ showTags r.2 ++ "|" ++ showTags (Payload.exportSeeds r.1))
+  | "pleader", [tags] => do
+    let ts ← parseList parseTag tags
+    let r := Payload.loadLeader ts
+    pure (",".intercalate (r.1.map showP3) ++ "|" ++ showTags r.2 ++ "|" ++ showTags (Payload.exportLeader r.1))
+  | "pgroup", [tags] => do
+    let ts ← parseList parseTag tags
+    let hs := Payload.loadGroup ts
+    pure (showHandles hs ++ "|" ++ showTags (Payload.exportGroup hs))
+  | "pimage", [tags] => do
+    let ts ← parseList parseTag tags
+    let r := Payload.loadImageBoundary ts
+    pure (",".intercalate (r.1.map showP2) ++ "|" ++ showTags r.2 ++ "|" ++ showTags (Payload.exportImageBoundary r.1))
+  | "pmline", [tags] => do
+    let ts ← parseList parseTag tags
+    let vs := Payload.loadMLine ts
+    let ok := vs.all (fun v => v.lps.length == v.fps.length)
+    let showLL := fun (ll : List (List Nat)) => ";".intercalate (ll.map showNatsC)
+    pure (" ".intercalate (vs.map (fun v => s!"{showP3 v.loc},{showP3 v.dir},{showP3 v.miter},[{showLL v.lps}],[{showLL v.fps}]")) ++
+      "|" ++ (if ok then showTags (Payload.exportMLine vs) else showTags (Payload.exportMLine vs)))
+  | "ppat", [tags] => do
+    let ts ← parseList parseTag tags
+    let ls := Payload.loadPattern ts
+    pure (" ".intercalate (ls.map (fun l => s!"{l.angle},{showP2 l.base},{showP2 l.offset},[{showNatsC l.dashes}]")) ++
+      "|" ++ showTags (Payload.exportPattern ls))
+  | _, _ => none
+
 def step (line : String) : String :=
+  match (match line.splitOn "|" with
+      | op :: args => if op.startsWith "p" then payloadStep op args else none
+      | [] => none) with
+  | some r => r
+  | none =>
   match line.splitOn "|" with
   -- one attribute through _export_dxf_attribute_optional / _export_group_codes
   | ["exp", code, xt, dflt, opt, minver, ver, force, stored] =>
@@ -147,7 +293,8 @@ def step (line : String) : String :=
     | some m, some ts, some n0 => showNS (simpleLoad m ts n0) none
     | _, _, _ => "bad-op"
   -- the attribute tags a registered class writes for a namespace (plan from Gen/Schemas)
-  | ["expent", dxftype, ver, force, ns] =>
+  | [op, dxftype, ver, force, ns] =>
+    if op != "expent" && op != "expents" then "bad-op" else
     match dxftype.toNat?, ver.toNat?, parseBool force, parseList parseNSEntry ns with
     | some d, some v, some f, some n0 =>
       match findClass d with
@@ -155,7 +302,9 @@ def step (line : String) : String :=
       | some c =>
         match findPlan c v with
         | none => "no-plan"
-        | some p =>
+        | some p0 =>
+          -- `expents`: the plan without the payload tags of the traced instance (Props section 8)
+          let p := if op == "expents" then stripPlan p0 else p0
           match symSegs c.attrs p.segs with
           | none => "err DXFAttributeError"
           | some sss =>
